@@ -117,7 +117,8 @@ class Chooser:
         s = z3.Solver()
         s.set('timeout', self.feas_timeout_ms)
         for a in self.axioms:
-            s.add(a)
+            if not _has_quantifier(a):
+                s.add(a)
         for p in pc:
             if not _has_quantifier(p):
                 s.add(p)
